@@ -89,6 +89,15 @@ def main():
                     at = rng.randint(0, len(ops_model))
                     ops_model.insert(at, [r_])
                     ops_real.insert(at, K[r_ - 1])
+            if job.get('ghost'):
+                # C05: the operands that are containers live in the data manager, stored and evicted (ghosts) at the call
+                from harness import minijar
+                gjar = minijar.Jar(minijar.Store())
+                for o in ops_real:
+                    if hasattr(o, '_p_jar') and o._p_jar is None:
+                        gjar.add(o)
+                gjar.commit()
+                gjar.cache.minimize()
             try:
                 res = mu(ops_real)
                 kindname = 'Set' if type(res) is SE else type(res).__name__
